@@ -569,7 +569,15 @@ func checkMain(args []string) int {
 				noReplay = true
 			}
 		}
-		if noReplay {
+		if g.V.Kind == "race" {
+			// a happens-before race is confirmed natively by the Go race detector on
+			// free-running repetitions of the same harness inputs (no forced schedule)
+			rr := *rp
+			rr.Sched = nil
+			ok, out := nativeRace(&spec, g.Pkg, &rr, overlay, raceLine(g.V.Site))
+			confirmed = ok
+			detail = "go test -race: " + out
+		} else if noReplay {
 			confirmed = true
 			detail = "not natively replayable (see level_note)"
 		} else {
@@ -791,6 +799,53 @@ func nativeReplay(spec *Spec, pkg string, reps []*Replay, overlay map[string]str
 		return nil, fmt.Errorf("replay returned %d outcomes for %d replays", len(outs), len(reps))
 	}
 	return outs, nil
+}
+
+// raceLine extracts the first "file.go:line" of a race site "f.go:L:C(kind) <-> g.go:L:C(kind)".
+func raceLine(site string) string {
+	p := strings.SplitN(site, "(", 2)[0]
+	parts := strings.Split(p, ":")
+	if len(parts) >= 2 {
+		return parts[0] + ":" + parts[1]
+	}
+	return p
+}
+
+// nativeRace runs the harness natively under the Go race detector, free-running.
+func nativeRace(spec *Spec, pkg string, rep *Replay, overlay map[string]string, line string) (bool, string) {
+	dir, err := os.MkdirTemp("", "symgo-race-")
+	if err != nil {
+		return false, err.Error()
+	}
+	defer os.RemoveAll(dir)
+	in := filepath.Join(dir, "in.json")
+	b, _ := json.Marshal(map[string]interface{}{"replays": []*Replay{rep}})
+	os.WriteFile(in, b, 0o644)
+	rel := "./" + strings.TrimPrefix(pkg, "verifharness/")
+	args := []string{"test", "-race", "-vet=off", "-count=1", "-run", "^TestReplay$", "-timeout", "20m"}
+	if len(spec.Tags) > 0 {
+		args = append(args, "-tags="+strings.Join(spec.Tags, ","))
+	}
+	if len(overlay) > 0 {
+		ovf := filepath.Join(dir, "overlay.json")
+		ob, _ := json.Marshal(map[string]interface{}{"Replace": overlay})
+		os.WriteFile(ovf, ob, 0o644)
+		args = append(args, "-overlay", ovf)
+	}
+	args = append(args, rel)
+	cmd := exec.Command("go", args...)
+	cmd.Dir = spec.Dir
+	cmd.Env = append(os.Environ(), "GOFLAGS=-mod=mod", "GOPROXY=off", "GOSUMDB=off", "GOTOOLCHAIN=local",
+		"VERIF_REPLAY="+in, "VERIF_REPLAY_OUT="+filepath.Join(dir, "out.json"), "VERIF_REPEAT=300")
+	co, _ := cmd.CombinedOutput()
+	out := string(co)
+	if strings.Contains(out, "DATA RACE") && strings.Contains(out, line) {
+		return true, "DATA RACE reported at " + line
+	}
+	if strings.Contains(out, "DATA RACE") {
+		return false, "DATA RACE reported, but not at " + line
+	}
+	return false, "no race reported in 300 free-running repetitions: " + tail(out, 300)
 }
 
 func tail(s string, n int) string {
